@@ -479,6 +479,12 @@ impl Sender {
     pub fn verif_credits(&self) -> Option<u32> {
         self.credits.verif_available()
     }
+
+    /// Verification hook: probe for the available flow credits, usable during a send.
+    #[doc(hidden)]
+    pub fn verif_credits_probe(&self) -> impl Fn() -> Option<u32> + Send + Sync + 'static {
+        self.credits.verif_probe()
+    }
 }
 
 impl Drop for Sender {
